@@ -28,13 +28,15 @@ func TestC03Enum(t *testing.T) {
 func TestC03EnumServer(t *testing.T) {
 	rec := NewRecorder("C03", "TestC03EnumServer")
 	defer rec.Finish(t)
-	runSrvEnum(t, rec, "server", Scale(4, 5), c03Judge)
+	// also with a peer that vanishes right after its last envelope: what the server does with a connection that is gone
+	runSrvEnumEnds(t, rec, "server", Scale(4, 5), []string{"eof", "close-now"}, c03Judge)
 }
 
 func TestC03(t *testing.T) {
 	rec := NewRecorder("C03", "TestC03")
 	rapid.Check(t, func(rt *rapid.T) {
 		c := genSrvCase(rt, []string{"direct", "server"})
+		c.End = rapid.SampledFrom([]string{"eof", "eof", "silence", "close-now", "close-now", "cut"}).Draw(rt, "end03")
 		o := &Outcome{}
 		rec.Journal(c)
 		var obs *SrvObs
